@@ -1,5 +1,7 @@
 """C18 — per-property knobs of ./check (see DESIGN.md §6 C18)."""
 THEOREMS_TIED = ["Rustic.Props.C18.apply_changes_only_named", "Rustic.Props.C18.refused_leaves_stored_config",
+                 "Rustic.Props.C18.refused_leaves_handle_config", "Rustic.Props.C18.handle_config_follows_store_seq",
+                 "Rustic.Props.C18.apply_mut_agrees",
                  "Rustic.Props.C18.accepted_no_panic"]
 
 TRUSTED = [
@@ -17,11 +19,14 @@ ASSUMPTIONS = [
 RULE = ("ops from harness/src/c18.rs (one splitmix64 PRNG, VERIF_SEED): apply = random stored config x random ConfigOptions, every field unset / boundary (0, 1, 63..65, 4095/4096, "
         "2^20, u32::MAX, 2^32, 2^63, u64::MAX, powers of two +-1) / interior / huge, half of them with consistent chunker parameters so that later validation steps are reached; "
         "rabin = parameter triples at the acceptance borders; getters/packsize = config getters and PackSizer::pack_size for total sizes 0..u64::MAX; seq = init + 1..5 "
-        "apply_config calls on an in-memory repository, re-opened after each; limits = crafted index (1..5 packs, used/unused blob sizes up to u32::MAX per pack) x limit options x repack flags through the real planner, observation = the limits decide_repack computed; smoke = init with boundary options (incl. huge accepted chunk sizes: rabin size = min = 2^62 / 2^63, max up to usize::MAX, fixed-size up to usize::MAX; pack sizes / grow factors / limits 0, 1, 2^31, u32::MAX; tolerate percents; compression extremes; version 1 + options), in one run of three followed by 1..3 apply_config changes -> 2 backups -> check --read-data -> restore -> forget -> "
+        "apply_config calls on an in-memory repository, re-opened after each; seq1 = the same steps on ONE open handle (both observe repo.config() after every call: "
+        "refused => as before, otherwise => equal to the stored config); apply also observes the partly assigned &mut target on Err; limits = crafted index (1..5 packs, used/unused blob sizes up to u32::MAX per pack) x limit options x repack flags through the real planner, observation = the limits decide_repack computed; smoke = init with boundary options (incl. huge accepted chunk sizes: rabin size = min = 2^62 / 2^63, max up to usize::MAX, fixed-size up to usize::MAX; pack sizes / grow factors / limits 0, 1, 2^31, u32::MAX; tolerate percents; compression extremes; version 1 + options), in one run of three followed by 1..3 apply_config changes -> 2 backups -> check --read-data -> restore -> forget -> "
         "prune_plan/prune with limit options (0%, 5%, 99%, 100%, 101%, 150%, u64::MAX %, sizes 0/1/u64::MAX, unlimited, repack-all) -> check -> restore. "
         "Non-trivial = observation starts with `ok ` or is a refusal (`err:`); distinct by hash of (op, observation).")
 EXPLANATION = ("Theorems: apply changes only the named settings; no version downgrade; a refused change (and a refused init) leaves the stored configuration untouched and "
-               "writes nothing; accepted configurations satisfy the chunker's well-formedness (hence, by C06, chunking terminates and is lossless and bounded), pack-size "
+               "writes nothing — and leaves the in-memory config of the open handle untouched too (refused_leaves_handle_config, for any in-memory copy), although "
+               "ConfigOptions::apply itself assigns fields before it fails (apply_assigns_before_failing: apply_config must work on a clone); the handle's copy equals the "
+               "stored config after any sequence of changes on one handle (handle_config_follows_store_seq); accepted configurations satisfy the chunker's well-formedness (hence, by C06, chunking terminates and is lossless and bounded), pack-size "
                "and prune-limit arithmetic of the repaired code cannot overflow/divide by zero, and a percentage limit means what the option says (prune_limit_percent_meaning); witnesses for each repaired defect. Correspondence: real apply / "
                "check_rabin_params / getters / pack_size / init+apply_config sequences / the limits computed inside decide_repack equal the model's results; oracle: smoke runs never panic, restore equals the source.")
 
@@ -54,4 +59,8 @@ def is_property_failure(op, impl, model):
     t = op.split(" ")
     if impl.startswith(("panic", "oracle-fail")):
         return True
-    return len(t) > 1 and t[1] in ("apply", "seq", "smoke", "rabin")
+    if len(t) > 1 and t[1] == "apply" and impl.startswith("err:") and model.startswith("err:") \
+            and impl.split(" ")[0] == model.split(" ")[0]:
+        # same refusal, only the partly assigned `&mut` target differs: the model of `apply`'s assignment order is off
+        return False
+    return len(t) > 1 and t[1] in ("apply", "seq", "seq1", "smoke", "rabin")
